@@ -51,8 +51,9 @@
      * which handler inside a layer absorbs an exception (AbsorbCore is allowed everywhere: an
        extractor may recover locally, e.g. read_html falls back to empty content);
      * everything inside ArchiveLoop (see above);
-     * log records / third-party warnings that Python's logging last-resort handler or the
-       warnings module copy to stderr: `stderr` counts only the CLI's own diagnostic lines;
+     * where log records and third-party warnings go is host configuration: the harness gives the root logger
+       a handler and filters warnings, so that `stderr` counts exactly the lines the CLI itself writes
+       (a diagnostic whose message contains line breaks is as many lines);
      * exit codes / output for argument errors (argparse), a missing file's wording.
 
    CONSTANTS
